@@ -116,7 +116,7 @@ func (e *EmptyDataProvider) Get(key string) any {
 }
 
 func (e *EmptyDataProvider) GetByField(field reflect.StructField, fallback string) (any, string) {
-	return nil, fallback
+	return nil, GetKeyFromField(field, fallback, nil)
 }
 
 func (e *EmptyDataProvider) GetNestedProvider(key string) DataProvider {
